@@ -138,9 +138,9 @@ def structures(tier):
     return out
 
 
-def deductive(res, agg, only_lists=False):
+def deductive(res, agg, only_lists=False, tier="quick"):
     fn = "Preprocessor.inverse_transform_data"
-    for st in structures("quick"):
+    for st in structures(tier):
         if only_lists and not st.get("nlist"):
             continue
         cfg = f"dims={','.join(st['order'])};sample={','.join(st['sample'])}" + (f";multiindex={st['multiindex']}" if st.get("multiindex") else "") + \
@@ -485,7 +485,7 @@ def run(tier, seed):
                        "structure family enumerated (the property's own bound of 1-3 x 1-3 dims); Dataset containers and index kinds: bounded"]
     res.trusted = ["CPython on proxies", "vf/sym/ldom.py", "z3 (NRA for the value identity)"]
     agg = Agg(res, "C02")
-    deductive(res, agg)
+    deductive(res, agg, tier=tier)
     deductive_history(res, agg)
     agg.flush()
     run_bounded(res, tier, seed)
